@@ -63,7 +63,13 @@ class SynchronousHyperbandRungSystem:
             reduction_factor >= 2
         ), f"reduction_factor = {reduction_factor} must be >= 2"
         s_max = 0
-        while min_resource * np.power(reduction_factor, s_max) < max_resource:
+        # Rung levels are rounded to int below: stop as soon as the rounded
+        # level reaches ``max_resource``, otherwise the last two rung levels
+        # coincide for non-integer ``reduction_factor``
+        while (
+            int(round(min_resource * np.power(reduction_factor, s_max)))
+            < max_resource
+        ):
             s_max += 1
         if num_brackets is not None:
             SynchronousHyperbandRungSystem._assert_positive_int(
